@@ -224,21 +224,21 @@ def _safety(name):
     lab = name.split(".", 1)[1]
     if lab.startswith("UA."):
         return True
-    return lab.endswith(".safety") or lab.endswith(".overflow") or lab.endswith(".div0") or lab.endswith(".decreases") or lab.endswith(".unreachable") or lab.endswith(".unwrap") or lab.endswith(".loop_exit") \
+    return lab.endswith(".safety") or lab.endswith(".overflow") or lab.endswith(".div0") or lab.endswith(".decreases") or lab.endswith(".unreachable") or lab.endswith(".unwrap") or lab.endswith(".loop_exit") or lab.endswith(".precondition") \
         or lab in ("SU2", "TR3s", "TR3e", "TR3o", "SB1", "SB2", "TS0", "WF1b")
 
 
 _ALL_UNITS = ["take_range", "sort_take", "split_order", "window_frame", "dialect_select", "ident_quote", "ids_names", "toposort", "rq_tables",
-              "select_shape", "span_units", "sql_prec", "prql_prec", "literals", "set_ops", "desugar", "resolve_guards", "lex_strings", "limit_clause", "static_eval", "operator_tpl", "rel_names", "lower_cols", "vec_utils", "group_take", "flatten_sort", "star_exclude", "std_arity", "limit_select", "rq_shape", "star_cols", "func_env", "json_lits", "cte_define"]
+              "select_shape", "span_units", "sql_prec", "prql_prec", "literals", "set_ops", "desugar", "resolve_guards", "lex_strings", "limit_clause", "static_eval", "operator_tpl", "rel_names", "lower_cols", "vec_utils", "group_take", "flatten_sort", "star_exclude", "std_arity", "limit_select", "rq_shape", "star_cols", "func_env", "json_lits", "cte_define", "type_meet"]
 prop("C12", _ALL_UNITS, select={u: _safety for u in _ALL_UNITS},
-     not_covered="every function that is not under contract (~150 unwrap/expect sites, todo!() in type_intersection, panic!(cannot find cid) in lookup_cid), "
+     not_covered="every function that is not under contract (~150 unwrap/expect sites, panic!(cannot find cid) in lookup_cid), "
                  "recursion depth, chumsky, time bounds")
 claim("C12",
       "PARTIAL. C12 collects the panic-freedom and termination obligations of every real function under contract in the other units (plus the table rows std_arity UA.*: every unpack::<N> of resolve_special_func and every args[i] of "
       "static_eval_rq_operator matches the parameter count std.prql declares for that internal function): Verus proves, per "
       "function, absence of arithmetic overflow, failed unwrap/expect, out-of-range index, reachable unreachable!() and (for Toposort::visit and every "
       "loop) termination, under preconditions derived from the call sites. Obligations whose failure is a recorded finding: the parser-span / "
-      "character-offset mismatch that makes ErrorMessages::composed panic (span_units.SU2). NOT proved: the rest of the code base, stack depth, time.",
+      "character-offset mismatch that makes ErrorMessages::composed panic (span_units.SU2); the reachable todo!() of type_intersection (type_meet). NOT proved: the rest of the code base, stack depth, time.",
       "Preconditions (validated take bounds, operator arities as the resolver builds them, id counters below usize::MAX) are assumptions about call sites "
       "that are not themselves verified; RQ/PL supplied as JSON can violate them.")
 
